@@ -546,7 +546,7 @@ def fresh_process_lane(pid, tier, seed, agg, meta):
 # source and the file system answering differently (LD_PRELOAD interposer harness/shim/jlshim.c)
 
 def build_shim():
-    src = os.path.join(O.harness_dir(), "shim", "jlshim.c")
+    src = os.path.join(O.HARNESS, "shim", "jlshim.c")  # the interposer does not depend on the code under test
     d = os.path.join(O.TARGET, "shim")
     os.makedirs(d, exist_ok=True)
     so = os.path.join(d, "libjlshim.so")
